@@ -360,9 +360,14 @@ class BPTC19696:
             if row < 1:
                 # R(3) is not part of the 13x15 matrix, keep it as received
                 continue
-            bits[data_index if deinterleaved else interleave_index] = table[row - 1][
-                column
-            ]
+            # table holds the on-air bit of interleave_index, deinterleaved input keeps the layout it came in
+            bits[
+                (
+                    BPTC19696.FULL_INTERLEAVING_MAP[interleave_index]
+                    if deinterleaved
+                    else interleave_index
+                )
+            ] = table[row - 1][column]
 
         return bits
 
